@@ -119,3 +119,115 @@ Proof.
     (destruct (bytes_eqb (firstn 5 bytes) kp) eqn:E; [|discriminate];
      apply bytes_eqb_eq in E; right; repeat split; auto; discriminate).
 Qed.
+
+(* ---------- the Tink wrapper over keysets of several keys ---------- *)
+Lemma bytes_eqb_refl : forall a, bytes_eqb a a = true.
+Proof.
+  unfold bytes_eqb. induction a as [|x a IH]; cbn; auto.
+  rewrite N.eqb_refl. cbn. apply andb_true_iff in IH. destruct IH as [_ IH]. rewrite Nat.eqb_refl, IH. reflexivity.
+Qed.
+
+Lemma find_first_some : forall {A} (f : nat -> kentry -> option A) ks s a,
+  find_first f s ks = Some a -> exists i e, nth_error ks i = Some e /\ f (s + i) e = Some a.
+Proof.
+  intros A f ks; induction ks as [|e r IH]; intros s a H; cbn in H; [discriminate|].
+  destruct (f s e) eqn:E.
+  - injection H as <-. exists 0, e. rewrite Nat.add_0_r. auto.
+  - apply IH in H. destruct H as [i [e' [Hn Hf]]]. exists (S i), e'. rewrite <- plus_n_Sm. auto.
+Qed.
+
+Lemma find_first_none : forall {A} (f : nat -> kentry -> option A) ks s,
+  find_first f s ks = None -> forall i e, nth_error ks i = Some e -> f (s + i) e = None.
+Proof.
+  intros A f ks; induction ks as [|e r IH]; intros s H i e' Hn; [destruct i; discriminate|].
+  cbn in H. destruct (f s e) eqn:E; [discriminate|].
+  destruct i as [|i]; cbn in Hn.
+  - injection Hn as <-. rewrite Nat.add_0_r. exact E.
+  - rewrite <- plus_n_Sm. apply (IH (S s) H i e' Hn).
+Qed.
+
+Lemma accepted_some : forall v u, accepted v = Some u -> v = VAccept.
+Proof. intros [] u H; cbn in H; try discriminate; reflexivity. Qed.
+
+(* soundness: whatever is accepted was verified by the primitive of a key of the keyset, addressed by its prefix *)
+Lemma wrapped_ks_sound_lemma : forall ks bytes vf,
+  wrapped_verify_ks ks bytes vf = VAccept ->
+  exists i e, nth_error ks i = Some e /\
+    ((k_kind e <> PRaw /\ k_pfx e = firstn 5 bytes /\ vf i (skipn 5 bytes) = VAccept) \/
+     (k_kind e = PRaw /\ vf i bytes = VAccept)).
+Proof.
+  intros ks bytes vf H. unfold wrapped_verify_ks in H.
+  destruct (length bytes <? 5); [discriminate|].
+  destruct (find_first _ 0 ks) eqn:F1.
+  - apply find_first_some in F1. destruct F1 as [i [e [Hn Hf]]]. cbv beta in Hf. rewrite ?Nat.add_0_l in Hf. exists i, e. split; [exact Hn|left].
+    unfold nonraw_match in Hf. destruct (k_kind e) eqn:K; cbv beta iota in Hf; try discriminate;
+      (destruct (bytes_eqb (k_pfx e) (firstn 5 bytes)) eqn:B; cbv beta iota in Hf; [|discriminate];
+       apply bytes_eqb_eq in B; apply accepted_some in Hf; split; [discriminate|split; [exact B|exact Hf]]).
+  - destruct (find_first _ 0 ks) eqn:F2 in H; [|discriminate].
+    apply find_first_some in F2. destruct F2 as [i [e [Hn Hf]]]. cbv beta in Hf. rewrite ?Nat.add_0_l in Hf. exists i, e. split; [exact Hn|right].
+    unfold is_raw in Hf. destruct (k_kind e) eqn:K; cbv beta iota in Hf; try discriminate. apply accepted_some in Hf. auto.
+Qed.
+
+Lemma find_first_exists : forall {A} (f : nat -> kentry -> option A) ks s i e a,
+  nth_error ks i = Some e -> f (s + i) e = Some a -> exists a', find_first f s ks = Some a'.
+Proof.
+  intros A f ks s i e a Hn Hf. destruct (find_first f s ks) eqn:F; [eauto|].
+  pose proof (find_first_none f ks s F i e Hn) as Hc. congruence.
+Qed.
+
+(* completeness: a signature made by ANY key of the keyset (primary or not) can be turned into a proof, and that
+   proof is accepted - provided the primitives are complete (a proof derived with key i verifies with key i) *)
+Lemma wrapped_ks_complete_lemma : forall ks sig dv vf,
+  (forall e, In e ks -> k_kind e <> PRaw -> length (k_pfx e) = 5) ->
+  (forall i s p, dv i s = Some p -> vf i p = VAccept) ->
+  (forall i s p, dv i s = Some p -> 5 <= length p) ->
+  5 <= length sig ->
+  (exists j e, nth_error ks j = Some e /\
+     ((k_kind e <> PRaw /\ k_pfx e = firstn 5 sig /\ dv j (skipn 5 sig) <> None) \/
+      (k_kind e = PRaw /\ dv j sig <> None))) ->
+  exists out, wrapped_derive_ks ks sig dv = Some out /\ wrapped_verify_ks ks out vf = VAccept.
+Proof.
+  intros ks sig dv vf Hwf Hpc Hlen Hs [j [e [Hn Hsig]]].
+  unfold wrapped_derive_ks. replace (length sig <? 5) with false by (symmetry; apply Nat.ltb_ge; exact Hs).
+  (* acceptance of an output that came from entry i *)
+  assert (Hacc_nonraw : forall i ei p, nth_error ks i = Some ei -> nonraw_match (firstn 5 sig) ei = true ->
+            dv i (skipn 5 sig) = Some p -> wrapped_verify_ks ks (k_pfx ei ++ p) vf = VAccept).
+  { intros i ei p Hni Hm Hd. unfold wrapped_verify_ks.
+    assert (Hk : k_kind ei <> PRaw) by (unfold nonraw_match in Hm; destruct (k_kind ei); [discriminate| | |]; discriminate).
+    assert (Hl5 : length (k_pfx ei) = 5) by (apply Hwf; [eapply nth_error_In; eauto|exact Hk]).
+    replace (length (k_pfx ei ++ p) <? 5) with false by (symmetry; apply Nat.ltb_ge; rewrite app_length; lia).
+    assert (Hf5 : firstn 5 (k_pfx ei ++ p) = k_pfx ei).
+    { rewrite <- Hl5. rewrite firstn_app, Nat.sub_diag, firstn_all. cbn. apply app_nil_r. }
+    assert (Hs5 : skipn 5 (k_pfx ei ++ p) = p).
+    { rewrite <- Hl5. rewrite skipn_app, Nat.sub_diag, skipn_all. reflexivity. }
+    rewrite Hf5, Hs5.
+    destruct (find_first_exists
+                (fun i0 e0 => if nonraw_match (k_pfx ei) e0 then accepted (vf i0 p) else None) ks 0 i ei tt Hni) as [a' Hff].
+    { cbv beta. change (0 + i) with i. unfold nonraw_match. destruct (k_kind ei); try (exfalso; apply Hk; reflexivity);
+        rewrite bytes_eqb_refl, (Hpc _ _ _ Hd); reflexivity. }
+    rewrite Hff. reflexivity. }
+  destruct (find_first _ 0 ks) as [out|] eqn:F1.
+  - exists out. split; [reflexivity|].
+    apply find_first_some in F1. destruct F1 as [i [ei [Hni Hf]]]. cbv beta in Hf; change (0 + i) with i in Hf.
+    destruct (nonraw_match (firstn 5 sig) ei) eqn:Hm; [|discriminate].
+    destruct (dv i (skipn 5 sig)) as [p|] eqn:Hd; [|discriminate]. cbv beta in Hf; change (0 + i) with i in Hf. injection Hf as <-.
+    eapply Hacc_nonraw; eauto.
+  - (* no non-raw key derived: the signing key must be raw *)
+    destruct Hsig as [[Hk [Hp Hd]]|[Hk Hd]].
+    + exfalso. pose proof (find_first_none _ ks 0 F1 j e Hn) as Hc. cbv beta in Hc; change (0 + j) with j in Hc.
+      unfold nonraw_match in Hc. rewrite Hp, bytes_eqb_refl in Hc.
+      destruct (dv j (skipn 5 sig)) eqn:E; [|congruence].
+      destruct (k_kind e); [exfalso; apply Hk; reflexivity| | |]; discriminate.
+    + destruct (dv j sig) as [p|] eqn:Hdj; [|congruence].
+      destruct (find_first_exists (fun i0 e0 => if is_raw e0 then dv i0 sig else None) ks 0 j e p Hn) as [out Hout].
+      { cbv beta. change (0 + j) with j. unfold is_raw. rewrite Hk. exact Hdj. }
+      exists out. split; [exact Hout|].
+      apply find_first_some in Hout. destruct Hout as [i [ei [Hni Hf]]]. cbv beta in Hf; change (0 + i) with i in Hf.
+      destruct (is_raw ei) eqn:Hr; [|discriminate].
+      unfold wrapped_verify_ks.
+      replace (length out <? 5) with false by (symmetry; apply Nat.ltb_ge; eapply Hlen; eauto).
+      match goal with |- context [find_first ?f 0 ks] => destruct (find_first f 0 ks) eqn:G1 end; [reflexivity|].
+      destruct (find_first_exists (fun i0 e0 => if is_raw e0 then accepted (vf i0 out) else None) ks 0 i ei tt Hni) as [a' Hff].
+      { cbv beta. change (0 + i) with i. rewrite Hr, (Hpc _ _ _ Hf). reflexivity. }
+      rewrite Hff. reflexivity.
+Qed.
